@@ -69,6 +69,7 @@ class FakeTransport(asyncio.Transport):
         self.fail_writes = False      # next write raises inside the transport (fatal error)
         self.paused = False
         self.nwrites = 0
+        self.eof_sent = False
 
     # -- client side -------------------------------------------------------------------------
     def write(self, data):
@@ -80,7 +81,7 @@ class FakeTransport(asyncio.Transport):
             return
         self.nwrites += 1
         if self.fail_writes:
-            self.net.ev("write_fault", self.cid)
+            self.net.ev("write_fault", self.cid, bytes(data))
             self._force_close(BrokenPipeError(32, "injected write error"))
             return
         self.net.ev("write", self.cid, bytes(data))
@@ -95,6 +96,7 @@ class FakeTransport(asyncio.Transport):
 
     def _call_connection_lost(self, exc):
         self.lost_called = True
+        self.net.ev("lost_ran", self.cid)
         self.proto.connection_lost(exc)
 
     def close(self):
@@ -135,11 +137,12 @@ class FakeTransport(asyncio.Transport):
         return not self.closing
 
     def peer_send(self, data):
-        if not self.conn_lost:
+        if not self.conn_lost and not self.eof_sent:
             self.proto.data_received(data)
 
     def peer_eof(self):
-        if not self.conn_lost:
+        if not self.conn_lost and not self.eof_sent:
+            self.eof_sent = True
             self.net.ev("peer_eof", self.cid)
             keep = self.proto.eof_received()
             if not keep:
@@ -188,10 +191,9 @@ class Net:
     async def connect(self, loop, pf, host, port):
         self.attempts += 1
         self.ev("attempt")
+        # a real connect always suspends at least once (name resolution, the TCP handshake)
+        await asyncio.sleep(self.latency)
         mode = self.mode
-        if self.latency:
-            await asyncio.sleep(self.latency)
-            mode = self.mode if self.mode_at_completion else mode
         if mode == "refuse":
             self.ev("refused")
             raise ConnectionRefusedError(111, "refused")
@@ -201,8 +203,6 @@ class Net:
         self.ev("opened", t.cid)
         proto.connection_made(t)
         return t, proto
-
-    mode_at_completion = True
 
     def open_conns(self):
         return [c for c in self.conns if not c.closing]
